@@ -29,6 +29,12 @@ CONSTANTS Variants,        \* set of [prog |-> STRING, on |-> set of optional st
                            \* "dots" (./sub/../name), "abs" (absolute).  All claims are stated on the path AS GIVEN: "out" is
                            \* what is read at that spelling; for conforming code the route changes nothing in the behaviour.
           RouteInits,      \* the initial directories combined with the non-plain routes (all of Inits with "plain")
+                           \* The variant also carries inout: is the file at the output path one of the run's OWN INPUT files
+                           \* ("no"; "same" = the input option names the output path itself, e.g. gen_coords -c x.gro -o x.gro;
+                           \* "link" / "dots" = the input option reaches the same file through a symbolic link / through
+                           \* ./sub/../name).  The content at "out" is then "inp"; the claims are the same: nothing changes
+                           \* before success, afterwards the input's bytes sit under the first free backup name.
+          InoutInits,      \* the initial directories combined with inout # "no" (output path occupied)
           NBk,             \* backup names modelled per target: #name.1# .. #name.NBk#
           Inits,           \* set of [out |-> BOOLEAN, bk |-> SUBSET 1..NBk, link |-> BOOLEAN]: is there a file at the
                            \* output path / which backup names exist / is the output path a symbolic link to a regular file
@@ -43,6 +49,8 @@ CONSTANTS Variants,        \* set of [prog |-> STRING, on |-> set of optional st
           DevSeqOpenEarly,     \* deviation: gen_seq opens (truncates) the output before the graph exists (mutant m40)
           DevLinkDirect,       \* deviation: an output path that is a symbolic link is opened directly (written through the link)
           DevBackupCount,      \* deviation: backup index = number of existing backups + 1 instead of the first free index
+          DevInplaceInput,     \* deviation: when the output path holds an input of the run the file is updated in place
+                               \* (opened directly: no temp file, no backup) (seed3-C20-2)
           DevRouteDiscard      \* deviation: before the flush the program drops every queued file whose destination is not
                                \* literally its own spelling of the output path; the writer stores the path with the directory
                                \* part resolved, so through a symlinked directory the program drops its own file
@@ -76,9 +84,9 @@ Nil == [target |-> "-", content |-> "-"]
 NewC == IF run = 1 THEN "new1" ELSE "new2"
 PartC == IF run = 1 THEN "partial1" ELSE "partial2"
 
-InitFs(ini) ==
+InitFs(ini, v) ==
   [p \in AllPaths |->
-     IF p = "out" THEN (IF ini.link THEN "link" ELSE IF ini.out THEN "old" ELSE "absent")
+     IF p = "out" THEN (IF ini.link THEN "link" ELSE IF ini.out THEN (IF v.inout # "no" THEN "inp" ELSE "old") ELSE "absent")
      ELSE IF p = "tgt" THEN (IF ini.link THEN "lold" ELSE "absent")
      ELSE IF p = "other" THEN "oth"
      ELSE IF \E i \in ini.bk : p = Bk("out", i) THEN BkContent[CHOOSE i \in ini.bk : p = Bk("out", i)]
@@ -112,7 +120,9 @@ Special == {"open", "write", "flush", "popen", "pwrite"}
 Init == /\ run = 1
         /\ var \in Variants
         /\ target = "out"
-        /\ \E ini \in Inits : (var.route = "plain" \/ ini \in RouteInits) /\ fs = InitFs(ini)
+        /\ \E ini \in Inits : /\ (var.route = "plain" \/ ini \in RouteInits)
+                              /\ (var.inout = "no" \/ ini \in InoutInits)
+                              /\ fs = InitFs(ini, var)
         /\ fs0 = fs
         /\ queue = <<>> /\ cur = Nil /\ loose = <<>>
         /\ pc = 0 /\ sub = "idle" /\ idx = 0 /\ status = "running"
@@ -131,7 +141,7 @@ Work == /\ Running /\ sub = "idle" /\ NextStage # "-" /\ NextStage \notin Specia
 
 \* open(path, "w") follows a symbolic link: the bytes go to the file the path resolves to
 Phys(t) == IF fs[t] = "link" THEN "tgt" ELSE t
-Direct == DevPlainOpen \/ (DevLinkDirect /\ fs[target] = "link")
+Direct == DevPlainOpen \/ (DevLinkDirect /\ fs[target] = "link") \/ (DevInplaceInput /\ var.inout # "no" /\ fs[target] = "inp")
 \* DeferredFileWriter.open(path, "w"): a path already in the queue re-opens (truncates) its temp file
 OpenDeferred ==
         /\ Running /\ sub = "idle" /\ NextStage = "open" /\ ~Direct
